@@ -957,7 +957,17 @@ def _real_mw_metered(enc: object, body: bytes, cap: int) -> tuple[int, bytes | N
 def _replay_decoder(codec: str, args: dict) -> str | None:
     enc = _G if codec == "gzip" else _Z
     mode = args.get("size_mode", 0)
-    n0, cap0 = len(args["plain"]), args["cap"]
+    cap0 = args["cap"]
+    # the counterexample's decoded length first, then its neighbours just over the cap (a stub-level failure "asked for
+    # everything while input remained" needs output left to inflate before real zlib makes that call)
+    for n0 in (len(args["plain"]), cap0 + 1, cap0 + c18._CHUNK + 1):
+        r = _replay_decoder_one(codec, enc, mode, args, n0, cap0)
+        if r:
+            return r
+    return None
+
+
+def _replay_decoder_one(codec: str, enc: object, mode: int, args: dict, n0: int, cap0: int) -> str | None:
     for lifted in (True, False):
         n = (c18._lift(n0) if lifted else n0) + _SHIFT
         cap = (c18._lift(cap0) if lifted else cap0) + _SHIFT
